@@ -66,11 +66,12 @@ type ContractDB struct {
 	ThreadLocal map[string]bool // struct type names (or Type.field) not havocked at lock acquire
 	Consts      map[string]string
 	Callers     map[string][]string
+	Unprotected []string
 	File        string
 	NLines      int
 }
 
-var topKeywords = map[string]bool{"ghost": true, "spec": true, "inv": true, "guar": true, "threadlocal": true, "func": true, "iface": true, "extern": true, "lemma": true, "callers": true}
+var topKeywords = map[string]bool{"ghost": true, "spec": true, "inv": true, "guar": true, "threadlocal": true, "func": true, "iface": true, "extern": true, "lemma": true, "callers": true, "unprotected": true}
 var clauseKeywords = map[string]bool{"requires": true, "ensures": true, "assume": true, "release": true, "at": true, "loop": true, "let": true, "val": true, "modifies": true, "flags": true}
 
 var labelRe = regexp.MustCompile(`^\[([^\]]+)\]\s*`)
@@ -151,6 +152,8 @@ func ParseContractFile(path string) (*ContractDB, error) {
 					return nil, fail(fmt.Errorf("callers: expected ="))
 				}
 				db.Callers[strings.TrimSpace(rest[:eq])] = strings.Fields(rest[eq+1:])
+			case "unprotected":
+				db.Unprotected = append(db.Unprotected, strings.Fields(rest)...)
 			case "threadlocal":
 				for _, f := range strings.Fields(rest) {
 					db.ThreadLocal[f] = true
